@@ -194,3 +194,40 @@ macro_rules! h_par_unescape_tmpl_total {
         }
     };
 }
+
+// ---------------------------------------------------------------------------------------------------------
+// native replay bodies for properties decided by engine E2 (MIR symbolic executor): the same property, stated on
+// the real functions, executed on the concrete counterexample the solver produced. Never run under Kani.
+// ---------------------------------------------------------------------------------------------------------
+#[cfg(not(kani))]
+fn replay_input() -> std::vec::Vec<u8> {
+    let len = vk::any_usize();
+    let mut v = std::vec::Vec::new();
+    let mut i = 0;
+    while i < len {
+        v.push(vk::any_u8());
+        i += 1;
+    }
+    v
+}
+
+// C01/K1: load(text) = v  =>  load(serialize(v)) = v  and  serialize(load(serialize(v))) = serialize(v)
+#[cfg(not(kani))]
+pub fn n_c01_text_roundtrip() {
+    let input = replay_input();
+    let strict = vk::any_bool();
+    let preserve = vk::any_bool();
+    let spec = CharacterDataSpec::String { preserve_whitespace: preserve, max_length: None };
+    let mut p1 = ArxmlParser::new(PathBuf::new(), &[], strict);
+    let Ok(v1) = p1.parse_character_data(&input, &spec) else { return; };
+    let mut t1 = String::new();
+    v1.serialize_internal(&mut t1);
+    let mut p2 = ArxmlParser::new(PathBuf::new(), &[], strict);
+    let r2 = p2.parse_character_data(t1.as_bytes(), &spec);
+    vk_check!(r2.is_ok(), "text written for a loaded value is rejected when loaded again");
+    let v2 = r2.unwrap();
+    vk_check!(v1 == v2, "value changed by serialize -> load");
+    let mut t2 = String::new();
+    v2.serialize_internal(&mut t2);
+    vk_check!(t1 == t2, "second serialization differs from the first");
+}
